@@ -1314,7 +1314,7 @@ ecdsa_sign_be(ec_curve_p curve, uint8_t *hash, size_t hash_size,
 		return (EINVAL);
 	/* Calc bytes count for numbers. */
 	bytes = EC_CURVE_CALC_BYTES(curve);
-	if (rnd_size < priv_key_size || priv_key_size > bytes)
+	if (rnd_size < bytes || priv_key_size > bytes)
 		return (EINVAL); /* Random number too short / Private key too long. */
 	/* Double size + 1 digit. */
 	bits = EC_CURVE_CALC_BITS_DBL(curve);
@@ -1353,7 +1353,7 @@ ecdsa_sign_le(ec_curve_p curve, uint8_t *hash, size_t hash_size,
 		return (EINVAL);
 	/* Calc bytes count for numbers. */
 	bytes = EC_CURVE_CALC_BYTES(curve);
-	if (rnd_size < priv_key_size || priv_key_size > bytes)
+	if (rnd_size < bytes || priv_key_size > bytes)
 		return (EINVAL); /* Random number too short / Private key too long. */
 	/* Double size + 1 digit. */
 	bits = EC_CURVE_CALC_BITS_DBL(curve);
